@@ -550,16 +550,16 @@ func C03(tier rt.Tier) int {
 		runs = []txConfig{
 			{name: "prefixfree-2children", initial: map[string]string{"0a1b": "p", "0b22": "p"}, paths: pfPaths[:5], vals: []string{"x"}, children: 2, opsPerKid: 2, directOps: true, depth: 5},
 			{name: "nested-2children-pnodedb", persistent: true, initial: map[string]string{"aa": "p", "aaab": "p"}, paths: nested[:6], vals: []string{"x"}, children: 2, opsPerKid: 2, directOps: false, depth: 6},
-			{name: "empty-base-1child", initial: nil, paths: pfPaths, vals: []string{"x", "y"}, children: 1, opsPerKid: 3, directOps: true, depth: 5},
+			{name: "empty-base-1child", initial: nil, paths: pfPaths[:4], vals: []string{"x", "y"}, children: 1, opsPerKid: 3, directOps: true, depth: 5},
 			// a child that overwrites and then restores what an earlier write of the same block created, plus one more change
 			// values on branches (keys that are prefixes of other keys), committed base in memory, cold reads
-			{name: "nested-membase-blind-writes", initial: map[string]string{"aa": "p", "aaab": "p", "ab": "q"}, paths: []string{"aa", "aaab", "ab", "aaaa"}, vals: []string{"x"}, children: 2, opsPerKid: 2, directOps: true, depth: 6},
+			{name: "nested-membase-blind-writes", initial: map[string]string{"aa": "p", "aaab": "p", "ab": "q"}, paths: []string{"aa", "aaab", "ab", "aaaa"}, vals: []string{"x"}, children: 2, opsPerKid: 2, directOps: true, depth: 5},
 			// a transaction inside a transaction: T1 is a child of T0
 			{name: "nested-child-of-child", initial: map[string]string{"0a1b": "p"}, paths: pfPaths[:3], vals: []string{"x"}, children: 2, parentOf: []int{-1, 0}, opsPerKid: 2, directOps: true, depth: 6},
 			{name: "restore-within-block", initial: map[string]string{"0b22": "p"}, paths: pfPaths[:2], vals: []string{"x", "y"}, children: 1, opsPerKid: 3, directOps: true, depth: 7},
 		}
 	} else {
-		per = 6 * time.Minute
+		per = 4 * time.Minute
 		runs = []txConfig{
 			{name: "prefixfree-3children", initial: map[string]string{"0a1b": "p", "0b22": "p"}, paths: pfPaths, vals: []string{"x", "y"}, children: 3, opsPerKid: 3, directOps: true, depth: 7},
 			{name: "nested-2children-pnodedb", persistent: true, initial: map[string]string{"aa": "p", "aaab": "p"}, paths: nested, vals: []string{"x", "y"}, children: 2, opsPerKid: 3, directOps: true, depth: 7},
